@@ -23,13 +23,14 @@ type Meta struct {
 	Strategy string `json:"strategy"` // uniform | pct | sticky | starve
 	SlackMs  int    `json:"timer_slack_ms,omitempty"`
 	Class    string `json:"class,omitempty"` // scenario class within the profile
+	Dense    bool   `json:"dense,omitempty"` // preemption between plain statements everywhere in the code under test
 	Full     bool   `json:"-"`               // keep the full choice trace (set when a violation is re-run for its report)
 }
 
 func (m *Meta) GetMeta() *Meta { return m }
 
 func (m *Meta) Options() simrt.Options {
-	return simrt.Options{Seed: m.Sched, Strategy: m.Strategy, TimerSlack: time.Duration(m.SlackMs) * time.Millisecond, FullTrace: m.Full}
+	return simrt.Options{Seed: m.Sched, Strategy: m.Strategy, TimerSlack: time.Duration(m.SlackMs) * time.Millisecond, FullTrace: m.Full, Dense: m.Dense}
 }
 
 // GenMeta draws strategy and knobs (swarm style).
@@ -54,6 +55,7 @@ func GenMeta(r *simhook.Rand, seed uint64) Meta {
 	default:
 		m.SlackMs = 30000
 	}
+	m.Dense = r.Chance(1, 16)
 	return m
 }
 
